@@ -31,9 +31,40 @@ pub struct Recovery {
     pub gc_stats: crate::blob_tree::FragmentationMap,
 }
 
+/// Reads the `current` file: ID and checksum of the current version file.
+fn get_current_version_with_checksum(folder: &Path) -> crate::Result<(VersionId, Checksum)> {
+    let mut file = std::fs::File::open(folder.join(CURRENT_VERSION_FILE))?;
+
+    let version_id = file.read_u64::<LittleEndian>()?;
+    let checksum = Checksum::from_raw(file.read_u128::<LittleEndian>()?);
+
+    let checksum_type = file.read_u8()?;
+
+    if checksum_type != 0 {
+        return Err(crate::Error::InvalidTag(("ChecksumType", checksum_type)));
+    }
+
+    Ok((version_id, checksum))
+}
+
 pub fn recover(folder: &Path) -> crate::Result<Recovery> {
-    let curr_version_id = get_current_version(folder)?;
+    let (curr_version_id, expected_checksum) = get_current_version_with_checksum(folder)?;
     let version_file_path = folder.join(format!("v{curr_version_id}"));
+
+    // IMPORTANT: The sections of the version file are not checksummed individually,
+    // so validate the full file checksum stored in the `current` file, otherwise
+    // a corrupted version file (or `current` pointer) would be trusted blindly
+    {
+        let bytes = std::fs::read(&version_file_path)?;
+        let got = Checksum::from_raw(xxhash_rust::xxh3::xxh3_128(&bytes));
+
+        got.check(expected_checksum).inspect_err(|_| {
+            log::error!(
+                "Version file {} does not match the checksum stored in the current file - maybe the file is corrupted?",
+                version_file_path.display(),
+            );
+        })?;
+    }
 
     // TODO: maybe validate current version using the checksum in "current"
 
